@@ -99,8 +99,34 @@ def jsonEscBody : List Char → List Char
 /-- `json_escape_string(s)` -/
 def jsonQuote (s : List Char) : List Char := '"' :: (jsonEscBody s ++ ['"'])
 
+/-- `strings.ReplaceAll(s, old, new)` for a one-character `old` -/
+def replChar (old : Char) (new : List Char) (s : List Char) : List Char :=
+  s.flatMap fun c => if c = old then new else [c]
+
+/-- the nested `strings.ReplaceAll` calls of `json_escape_string`, innermost first
+    (`Gen.Derive.jsonReplacements`, regenerated from `go/runtime.rs`) -/
+def applyReplacements (tbl : List (Nat × List Nat)) (s : List Char) : List Char :=
+  tbl.foldl (fun acc r => replChar (Char.ofNat r.1) (r.2.map Char.ofNat) acc) s
+
 def hex4 (n : Nat) : List Char :=
   [hexDigit (n / 4096 % 16), hexDigit (n / 256 % 16), hexDigit (n / 16 % 16), hexDigit (n % 16)]
+
+/-- `\xNN`, `\uNNNN`, `\UNNNNNNNN` -/
+def goEscHex (c : Char) : List Char :=
+  if c.toNat < 32 ∨ c.toNat = 127 then ['\\', 'x', hexDigit (c.toNat / 16), hexDigit (c.toNat % 16)]
+  else if c.toNat < 65536 then '\\' :: 'u' :: hex4 c.toNat
+  else '\\' :: 'U' :: (hex4 (c.toNat / 65536) ++ hex4 (c.toNat % 65536))
+
+/-- a rune that is not written as itself -/
+def goEscNonPrint (c : Char) : List Char :=
+  if c.toNat = 7 then ['\\', 'a']
+  else if c.toNat = 8 then ['\\', 'b']
+  else if c.toNat = 12 then ['\\', 'f']
+  else if c.toNat = 10 then ['\\', 'n']
+  else if c.toNat = 13 then ['\\', 'r']
+  else if c.toNat = 9 then ['\\', 't']
+  else if c.toNat = 11 then ['\\', 'v']
+  else goEscHex c
 
 /-- one rune of Go's `strconv.Quote` (`appendEscapedRune`); `isPrint` stands for `unicode.IsPrint`
     on non-ASCII runes.  (Strings are valid UTF-8 here: goml strings are built from decoded literals,
@@ -110,16 +136,7 @@ def goEscRune (isPrint : Char → Bool) (c : Char) : List Char :=
   else if c = '\\' then ['\\', '\\']
   else if 32 ≤ c.toNat ∧ c.toNat < 127 then [c]
   else if 128 ≤ c.toNat ∧ isPrint c then [c]
-  else if c.toNat = 7 then ['\\', 'a']
-  else if c.toNat = 8 then ['\\', 'b']
-  else if c.toNat = 12 then ['\\', 'f']
-  else if c.toNat = 10 then ['\\', 'n']
-  else if c.toNat = 13 then ['\\', 'r']
-  else if c.toNat = 9 then ['\\', 't']
-  else if c.toNat = 11 then ['\\', 'v']
-  else if c.toNat < 32 ∨ c.toNat = 127 then ['\\', 'x', hexDigit (c.toNat / 16), hexDigit (c.toNat % 16)]
-  else if c.toNat < 65536 then '\\' :: 'u' :: hex4 c.toNat
-  else '\\' :: 'U' :: (hex4 (c.toNat / 65536) ++ hex4 (c.toNat % 65536))
+  else goEscNonPrint c
 
 def goQuoteBody (isPrint : Char → Bool) : List Char → List Char
   | [] => []
@@ -128,6 +145,13 @@ def goQuoteBody (isPrint : Char → Bool) : List Char → List Char
 /-- `fmt.Sprintf("%q", s)` -/
 def goQuote (isPrint : Char → Bool) (s : List Char) : List Char :=
   '"' :: (goQuoteBody isPrint s ++ ['"'])
+
+/-- the runes on which `%q` writes something a JSON reader takes for the same character: not
+    `\a`, `\v`, `\xNN` (other C0 controls and DEL) and not `\UNNNNNNNN` (unprintable above the BMP) -/
+def goQuoteJsonSafe (isPrint : Char → Bool) (c : Char) : Bool :=
+  let n := c.toNat
+  decide (n ≠ 7) && decide (n ≠ 11) && (decide (32 ≤ n) || n = 8 || n = 9 || n = 10 || n = 12 || n = 13)
+    && decide (n ≠ 127) && (decide (n < 65536) || isPrint c)
 
 /-! ## what the generated methods return -/
 
@@ -189,6 +213,41 @@ def itemsString (Δ : Defs) : List Val → Bool → List Char
   | [], _ => []
 end
 
+/-! ## the rendering `to_string` is meant to produce, written with `intercalate` -/
+
+def intercalate (sep : List Char) : List (List Char) → List Char
+  | [] => []
+  | [x] => x
+  | x :: y :: rest => x ++ sep ++ intercalate sep (y :: rest)
+
+mutual
+/-- `Name { f: v, g: w }`, `Name {}`, `Enum::Variant(v, w)`, `Enum::Variant` -/
+def render (Δ : Defs) : Val → List Char
+  | .unit => "()".toList
+  | .bool b => if b then "true".toList else "false".toList
+  | .int v => showInt v
+  | .float t => t
+  | .str s => s
+  | .struct n fs =>
+    match lookupStruct Δ n with
+    | some decls =>
+      if decls.isEmpty then n.toList ++ " {}".toList
+      else n.toList ++ " { ".toList ++ intercalate ", ".toList (renderMembers Δ decls fs) ++ " }".toList
+    | none => []
+  | .enum n idx args =>
+    match lookupVariant Δ n idx with
+    | some (vn, tys) =>
+      if tys.isEmpty then n.toList ++ "::".toList ++ vn.toList
+      else n.toList ++ "::".toList ++ vn.toList ++ "(".toList ++ intercalate ", ".toList (renderItems Δ args) ++ ")".toList
+    | none => []
+def renderMembers (Δ : Defs) : List (String × FTy) → List Val → List (List Char)
+  | (f, _) :: decls, v :: vs => (f.toList ++ ": ".toList ++ render Δ v) :: renderMembers Δ decls vs
+  | _, _ => []
+def renderItems (Δ : Defs) : List Val → List (List Char)
+  | v :: vs => render Δ v :: renderItems Δ vs
+  | [] => []
+end
+
 /-! ## typing of values, acceptance of definitions -/
 
 mutual
@@ -234,6 +293,8 @@ def accepts (Δ : Defs) : Def → Bool
 def namesOk : Def → Bool
   | .struct n _ fs => isIdent n && fs.all (fun f => isIdent f.1)
   | .enum n _ vs => isIdent n && vs.all (fun v => isIdent v.1)
+
+def defsOk (Δ : Defs) : Bool := Δ.all namesOk
 
 /-! ## JSON -/
 
@@ -327,6 +388,18 @@ def validNumber (t : List Char) : Bool :=
     if c = '0' then validFrac r
     else if isDigit c then validFrac (dropDigits r)
     else false
+
+mutual
+/-- every float in the value is rendered (`%g`) as a JSON number (it is finite) -/
+def floatsOk : Val → Bool
+  | .float t => validNumber t && t.all isNumChar
+  | .struct _ fs => floatsOkL fs
+  | .enum _ _ args => floatsOkL args
+  | _ => true
+def floatsOkL : List Val → Bool
+  | v :: vs => floatsOk v && floatsOkL vs
+  | [] => true
+end
 
 def spanNum : List Char → List Char × List Char
   | [] => ([], [])
